@@ -1,5 +1,5 @@
 SPECIFICATION Spec
-CONSTANT Prop = "RENDER"
+CONSTANT Prop = "TEXT"
 CONSTANT Open = {}
 POSTCONDITION Done
 CHECK_DEADLOCK FALSE
